@@ -3,7 +3,6 @@
 //!
 //! Every harness is a plain `#[kani::proof]`, preceded by one `// @harness ...` metadata line that
 //! run_kani.py parses (name, props, kind, bound, tier, backs, expect).
-#![cfg_attr(kani, feature(allocator_api))]
 #![allow(non_snake_case)]
 #![allow(dead_code)]
 #![allow(unused_imports)]
@@ -21,5 +20,3 @@ mod params;
 mod keygen;
 #[cfg(kani)]
 mod codec;
-#[cfg(kani)]
-mod probe;
